@@ -1,5 +1,11 @@
 """C14 — functional synthesis picks an output in the relation.
 
+Tie T: extract_function and make_functions of the CURRENT
+omega/symbolic/functions.py are translated into Gallina on every run
+(tools/py2coq_fn.py -> coq/gen/FunctionsGen.v) and proved EQUAL to the model
+the theorems talk about (coq/GenProofs/FunctionsBridge.v, re-checked every
+run; statement C14_model_is_translated_code).
+
 Tie H: the REAL omega/symbolic/functions.make_functions is run on generated
 relations (truth tables / formulas over <= 10 bits), with and without the
 CUDD restrict path; the hand-written model (coq/theories/L7Codegen/Synth.v)
@@ -9,7 +15,7 @@ orders, and compared as truth tables (SynthCheck.check_instance).
 import json
 import os
 
-from vlib import core, codegen_synth as cs
+from vlib import core, codegen_synth as cs, fn_gen
 from vlib.core import Broken, Mismatch, Failing
 
 ID = 'C14'
@@ -44,8 +50,23 @@ def _count_theory_lemmas(ctx, names):
 
 def prove(ctx):
     with ctx.coq_lock():
-        ctx.prove('Properties/C14.v')
+        # tie T: regenerate gen/FunctionsGen.v from the current functions.py,
+        # then re-prove GenProofs/FunctionsBridge.v (generated code = model)
+        # and the statements built on it
+        notes = fn_gen.ensure_functions(ctx)
+        ctx.prove_with_deps('Properties/C14.v')
     _count_theory_lemmas(ctx, ['PredFacts', 'SynthProofs'])
+    ctx.extra['translation'] = dict(
+        source=fn_gen.SRC, functions=['extract_function', 'make_functions'],
+        generated='coq/gen/FunctionsGen.v',
+        bridge='coq/GenProofs/FunctionsBridge.v', notes=notes)
+    ctx.trusted.append(
+        'translator tie T: tools/py2coq_fn.py (omega/symbolic/functions.py '
+        'extract_function, make_functions -> Gallina; assert -> Boolean '
+        'flag proved always true; set iteration -> order arguments; '
+        '`_bdd is None` / `_bdd.restrict` -> the argument `restrict`; '
+        'everything not translated is listed as a note in '
+        'coq/gen/FunctionsGen.v and in the evidence)')
     ctx.trusted.append(
         'dd.cudd.restrict enters only through its contract (result agrees '
         'with its argument on care; support within support(p) | '
